@@ -436,8 +436,8 @@ def run_check(pid: str, tier: str, seed: int, nshards: Optional[int] = None) -> 
         tname = rec["target"].replace("regress:", "")
         t = tmap.get(tname)
         case = rec["first"]
-        if t is not None and i < t.pin_sigs:
-            case = pin(ctx, t, sig, rec["first"])
+        if t is not None and i < t.pin_sigs and not os.environ.get("VERIF_NO_PIN"):
+            case = pin(ctx, t, sig, rec["first"])  # (VERIF_NO_PIN=1: report the first witness unshrunk - used by tools/run_seeded.py)
         h = hashlib.sha1(sig.encode()).hexdigest()[:12]
         path = os.path.join(env.VERIF, "replays", pid, f"{h}.json")
         with open(path, "w") as fh:
